@@ -69,7 +69,7 @@ def cases(ctx, zone: str):
             yield {"tz": zone, "version": version, "steps": [
                 ["restore", highest, {"type": 17, "version": "2.0", "children": {}}],
                 ["rx", request + "\n"], ["rx", request + "\n"]]}
-    for i in range(ctx.pick(100, 4000) // ctx.shard_count):
+    for i in range(ctx.pick(100, 40000) // ctx.shard_count):
         version = [None, None, *VERSIONS][i % 7]
         gen = histories.HistoryGen(rng, version)
         steps = prefix(version, bool(i % 3 == 0), True, bool(i % 5 == 0))
